@@ -103,6 +103,11 @@ type seqState struct {
 	created                      []made // swaps created so far (in this sequence), for claim/refund targets
 	limStable                    bool
 	pendingClaim                 []byte // raw id of a swap to claim next with the right secret (set by genSetLimit)
+	// the harness's own bookkeeping of the time-limited allowance, from its own log of block times and of
+	// the incoming amounts it saw claimed; it never reads the implementation's TimeElapsed counter
+	lastBlockNs int64            // time of the previous block the harness started
+	shElapsed   [nAssets]int64   // real time accumulated since the reset the harness itself computes
+	shWindow    [nAssets]int64   // incoming amounts claimed (while time-limited) since that reset
 }
 
 type made struct {
@@ -315,6 +320,19 @@ func (w *world) randomParams(r *c.Rng, ctx sdk.Context) {
 		a.MaxBlockLock = a.MinBlockLock + uint64(r.Range(0, 4))
 		if i == 1 && r.Chance(40) { // the same deputy for both assets
 			a.DeputyAddress = p.AssetParams[0].DeputyAddress
+		}
+	}
+	if r.Chance(60) { // both assets time-limited, different periods, several blocks per period
+		per := c.Pick(r, [][2]int64{{3600e9, 60e9}, {60e9, 10e9}, {3600e9, 10e9}, {60e9, 3600e9}, {600e9, 60e9}})
+		for i := range p.AssetParams {
+			a := &p.AssetParams[i]
+			a.SupplyLimit.TimeLimited = true
+			a.SupplyLimit.TimePeriod = time.Duration(per[i%2])
+			if a.SupplyLimit.Limit.IsZero() {
+				a.SupplyLimit.Limit = sdkmath.NewInt(1000)
+			}
+			a.SupplyLimit.TimeBasedLimit = sdkmath.NewInt(c.Pick(r, []int64{i64(a.SupplyLimit.Limit) / 10, i64(a.SupplyLimit.Limit) / 4, i64(a.SupplyLimit.Limit) / 2}))
+			a.Active = true
 		}
 	}
 	k.SetParams(ctx, p)
@@ -596,9 +614,22 @@ func (w *world) genClaim(r *c.Rng, st *seqState, o obs) *opDesc {
 	if target != nil {
 		stTag = fmt.Sprintf("st%d-dir%d", target.status, target.dir)
 	}
+	var after func(ok bool)
+	if target != nil && target.dir == int(types.SWAP_DIRECTION_INCOMING) {
+		a, _ := w.assetOf(o, target.denom)
+		amt, _ := strconv.ParseInt(target.amt, 10, 64)
+		dn := target.denom
+		if a.SupplyLimit.TimeLimited {
+			after = func(ok bool) {
+				if ok {
+					st.shWindow[dn] += amt
+				}
+			}
+		}
+	}
 	return &opDesc{
 		kind: "claim", args: fmt.Sprintf("%d,%d,%d", from, st.ids.of(id), st.secrets.of(rn)), hashes: hashes,
-		sig: "claim|" + variant + "|" + stTag,
+		sig: "claim|" + variant + "|" + stTag, after: after,
 		run: func(cx sdk.Context) error { return k.ClaimAtomicSwap(cx, w.parties[from], id, rn) },
 	}
 }
@@ -772,6 +803,32 @@ func (w *world) genSetLimit(r *c.Rng, st *seqState, o obs) *opDesc {
 	}
 }
 
+// newBlock is the harness's own period clock: real time since its own last reset, per asset independently,
+// reset when that accumulated time reaches the asset's period (or the asset is not time-limited).
+func (st *seqState) newBlock(assets []types.AssetParam, nowNs int64) {
+	if len(assets) == 0 {
+		return
+	}
+	dt := nowNs - st.lastBlockNs
+	for _, a := range assets {
+		i := denomIdx(a.Denom)
+		if a.SupplyLimit.TimeLimited && st.shElapsed[i]+dt < int64(a.SupplyLimit.TimePeriod) {
+			st.shElapsed[i] += dt
+		} else {
+			st.shElapsed[i], st.shWindow[i] = 0, 0
+		}
+	}
+	st.lastBlockNs = nowNs
+}
+
+func (st *seqState) shadow() string {
+	var xs []string
+	for i := 0; i < nAssets; i++ {
+		xs = append(xs, fmt.Sprintf("%d,%d,%d", i, st.shElapsed[i], st.shWindow[i]))
+	}
+	return strings.Join(xs, ";")
+}
+
 func errClass(err error) string {
 	space, code, _ := errorsmod.ABCIInfo(err, false)
 	return fmt.Sprintf("%s:%d", space, code)
@@ -780,7 +837,7 @@ func errClass(err error) string {
 func (w *world) seq(out *c.Out, seq int, r *c.Rng) {
 	ctx, _ := w.base.CacheContext()
 	k := w.tApp.GetBep3Keeper()
-	st := &seqState{limStable: true}
+	st := &seqState{limStable: true, lastBlockNs: ctx.BlockTime().UnixNano()}
 	w.randomParams(r, ctx)
 	cfg := fmt.Sprintf("0;%s;%s", bools(w.macc), bools(w.blocked))
 	// wiring facts the theorems assume (hcfg): the bep3 module account is a keeper Macc and blocked in x/bank
@@ -789,7 +846,7 @@ func (w *world) seq(out *c.Out, seq int, r *c.Rng) {
 	}
 	nops := c.Budget(70, 150)
 	emit := func(d *opDesc, pre obs, cls kapp.Class, post obs, extra string) {
-		out.Case(d.sig+"|"+string(cls)+extra, "c13.op", d.kind, cfg, w.enc(pre), d.args, d.hashes, c.B(st.limStable), "=>", string(cls), w.enc(post))
+		out.Case(d.sig+"|"+string(cls)+extra, "c13.op", d.kind, cfg, w.enc(pre), d.args, d.hashes, c.B(st.limStable), st.shadow(), "=>", string(cls), w.enc(post))
 	}
 	for i := 0; i < nops; i++ {
 		pre := w.observe(ctx, st, out)
@@ -799,6 +856,7 @@ func (w *world) seq(out *c.Out, seq int, r *c.Rng) {
 		case i == 0 || x < 22: // a new block
 			dh, dt, tag := w.genBegin(r, pre)
 			nctx := ctx.WithBlockHeight(pre.height + dh).WithBlockTime(time.Unix(0, pre.timeNs+dt).UTC())
+			st.newBlock(pre.assets, pre.timeNs+dt)
 			panicked, msg := c.Recover(func() { bep3.BeginBlocker(nctx, k) })
 			if panicked {
 				out.Violation(fmt.Sprintf("seq=%d op=%d BeginBlocker panic: %s", seq, i, msg))
